@@ -1,6 +1,7 @@
 import NeumannModel.Raft.Lemmas
 import NeumannModel.Raft.Safety
 import NeumannModel.Raft.LogMatch
+import NeumannModel.Raft.Commit
 /-
   C01 — property theorems.
   Part 1: handler-level facts (for every node state and message).
@@ -154,6 +155,31 @@ theorem ae_is_leader_log_segment (c : Config) (steps : List Step) (src dst T l p
     ((run c (initSys c) steps).canon T).take pi ++ es
       = ((run c (initSys c) steps).canon T).take (pi + es.length) :=
   ((lm_run c _ steps (inv_init c) (lm_init c)).aeOk src dst T l pi pt es lc h).2.2.2.1
+
+/-- **Acknowledgements are sound**: a success AppendEntriesResponse `(T, f, m)` anywhere in the
+    network means `f` reached term `T`, `m` lies inside the log of the leader of `T`, and as
+    long as `f` stays in term `T` its log keeps exactly that leader's first `m` entries
+    (whatever later AppendEntries of that term it processes, in whatever order). -/
+theorem ack_sound (c : Config) (steps : List Step) (src dst T f m : Nat)
+    (h : (src, dst, Msg.appendEntriesResp T true f m) ∈ (run c (initSys c) steps).net) :
+    src = f ∧ ∃ nd : Node, (run c (initSys c) steps).nodes[f]? = some nd ∧ T ≤ nd.term ∧
+      m ≤ ((run c (initSys c) steps).canon T).length ∧
+      (nd.term = T → nd.log.take m = ((run c (initSys c) steps).canon T).take m) := by
+  have hC := cinv_run c _ steps (inv_init c) (lm_init c) (cinv_init c)
+  exact ⟨hC.aerSrc src dst T true f m h, hC.ackSound src dst T f m h⟩
+
+/-- **`match_index` is sound**: every positive `match_index[f] = m` a leader holds is backed by
+    a success acknowledgement of its CURRENT term sent by `f` (never by a stale or foreign one). -/
+theorem match_index_sound (c : Config) (steps : List Step) (i : Nat) (nd : Node)
+    (hnd : (run c (initSys c) steps).nodes[i]? = some nd) (hr : nd.role = .leader)
+    (f m : Nat) (hg : alGet nd.matchIdx f = some m) (hpos : 0 < m) :
+    ∃ dst, (f, dst, Msg.appendEntriesResp nd.term true f m) ∈ (run c (initSys c) steps).net :=
+  (cinv_run c _ steps (inv_init c) (lm_init c) (cinv_init c)).matchSound i nd hnd hr f m hg hpos
+
+/-- no log ever holds an entry of a term its node has not reached -/
+theorem log_terms_bounded (c : Config) (steps : List Step) (i : Nat) (nd : Node)
+    (hnd : (run c (initSys c) steps).nodes[i]? = some nd) : ∀ e ∈ nd.log, e.term ≤ nd.term :=
+  (cinv_run c _ steps (inv_init c) (lm_init c) (cinv_init c)).nodeTermBound i nd hnd
 
 /-- no two nodes ever report different entries committed at one position -/
 def StateMachineSafety (s : Sys) : Prop :=
